@@ -35,6 +35,10 @@ claimed = {
          "tree-level conclusion (first accepting child at the larger limit is a non-text child) uses the first-match contract of match (C03) and that text is the last root child; detectors installed by Extend are arbitrary predicates and are outside"),
  "C18": ("proof", "tarChksum is proved equal to prefix-sum spec functions, tarParseOctal to the octal value of a six-digit field; Tar is sandwiched: accepted => recorded checksum equals the unsigned or signed sum; header in the writers' format => accepted. Corruption sensitivity is a lemma proved from two induction lemmas (point update, difference multiple of 256).", "5 C18",
          "ustarHeader is a trusted format predicate (what archive/tar, GNU tar, bsdtar emit); names ending a path component 'gpkg-1' are excluded from it, as the implementation deliberately rejects Gentoo gpkg"),
+ "C12": ("other", "The in-repository glue is proved under documented dependency contracts: a byte-order mark takes precedence over any HTML meta declaration (FromHTML), and for a document with an XML declaration fromXML reaches the label extraction whatever encoding is declared (RawToken's documented behaviour with and without CharsetReader).", "5 C12",
+         "tokenizer conformance (quoting styles, attribute order, letter case, prologues with fake metas) is behaviour of golang.org/x/net/html and encoding/xml and is not decided here; RawToken's contract is written from its documentation"),
+ "C19": ("proof", "Converse direction on the real zipContains: a positive verdict implies the marker is the leading part of the name field (offset 30) of the first entry or of a PK\\3\\4 local file header at a computed offset (ghost witness), and with the OOXML check the first name is the marker or one of the five bookkeeping prefixes; readBuf.advance is proved exact; every zip-based type has application/zip as parent (init facts).", "5 C19",
+         "the forward direction (standard writer layout => marker found among the first six entries) is NOT discharged: the layout lemma did not go through the solvers in the time available (see DESIGN.md, C19); design-phase execution showed the walk skips an entry starting < 56 bytes after the previous header"),
 }
 na_reason = {}
 def main():
